@@ -152,6 +152,19 @@ def cls_skip_name_not_five_tokens(f):
     return any(not re.fullmatch(r'[A-Za-z*]+', n or '') for n in names)
 
 
+def cls_env_matched_by_end(f):
+    """C03/C15: the query is the text of a plain `\\end{name}` command and the
+    surplus matches are environments matched through their closing delimiter."""
+    if not f.kind.endswith('full-expression-query'):
+        return False
+    o = f.opts or {}
+    q = o.get('query') or (o.get('detail') or {}).get('query') or ''
+    try:
+        return q.startswith('\\end{') and int(f.observed) > int(f.expected)
+    except (TypeError, ValueError):
+        return False
+
+
 def reproduces(k):
     """Replay the recorded example of a known finding on the current tree."""
     import impl
@@ -166,6 +179,9 @@ def reproduces(k):
         if kid == 'KF-skip-name-not-five-tokens':
             s = '\\begin{a[b}x\\end{a[b}y'
             return str(impl.parse(s, 0, ('a[b',))) != s
+        if kid == 'KF-env-matched-by-end':
+            soup = impl.parse('\\newcommand{\\R}{\\end{a}}\\begin{a}x\\end{a}')
+            return len(soup.find_all('\\end{a}')) != 1
         if kid == 'KF-skip-env-body-group':
             soup = impl.parse('\\begin{verbatim}\n{x}\n\\end{verbatim}')
             return [str(c) for c in soup.verbatim.expr._contents] != ['\n{x}\n']
@@ -189,6 +205,7 @@ def reproduces(k):
 
 
 CLASSIFIERS = {
+    'env_matched_by_end': cls_env_matched_by_end,
     'renamed_item_replace_only_child': cls_renamed_item_replace_only_child,
     'bracket_env_name': cls_bracket_env_name,
     'skip_name_not_five_tokens': cls_skip_name_not_five_tokens,
